@@ -99,10 +99,13 @@ func main() {
 	}
 	defer drv.Close()
 	mons := newMonitors(res)
+	runIEEE(f, res, drv)
 	runDirected(f, res, drv, mons)
 	runEquator(f, res, drv, mons)
 	runValues(f, res, drv, mons)
 	runPull(f, res, drv, mons)
+	runLossy(f, res, mons)
+	delete(res.Extra, "ieee_tie")
 	if err := res.Write(f.Out); err != nil {
 		lib.Fatal(err)
 	}
